@@ -1,6 +1,7 @@
 import Compute.Drv.Common
 import Compute.Model.Scalar
 import Compute.Model.VecOps
+import Compute.Model.VopsScalar
 /-
 Driver for C04 (model at `Float`).  Operands: `v n h1..hn` (Vector), `m r c n h1..hn` (Matrix built
 by `Matrix::new(data, r, c)`), `s h` (f64).  Values in replies use the same syntax (without the
@@ -34,14 +35,16 @@ def c04UFnNames : List (String × UFn) := [
 
 def nanF : Float := 0.0 / 0.0
 
-/-- Scalar `f64` methods at `Float`.  `cbrt asinh acosh atanh` are not bit-reproducible from Lean:
-they only occur through `mapt` (table). -/
+/-- Scalar `f64` methods at `Float`.  `asinh acosh atanh` are Rust std's own formulas over `ln_1p`, `hypot`, `sqrt`, `ln`
+(`Cv.asinhF` …), `cbrt` is the correctly rounded cube root (`Cv.cbrtF`) — see `Model/VopsScalar.lean`; everything else
+is the libm function both sides call.  `tbl` (op `mapt`) is only a fallback for methods without a `Float` spelling. -/
 def floatUFn (tbl : Float → Float) : UFn → Float → Float
   | .ln => Float.log | .ln_1p => log1pF | .log10 => Float.log10 | .log2 => Float.log2
   | .exp => Float.exp | .exp2 => Float.exp2 | .exp_m1 => expm1F
   | .sin => Float.sin | .cos => Float.cos | .tan => Float.tan
   | .sinh => Float.sinh | .cosh => Float.cosh | .tanh => Float.tanh
   | .asin => Float.asin | .acos => Float.acos | .atan => Float.atan
+  | .asinh => asinhF | .acosh => acoshF | .atanh => atanhF | .cbrt => cbrtF
   | .sqrt => Float.sqrt | .abs => Float.abs | .floor => Float.floor | .ceil => Float.ceil
   | .to_radians => fun x => x * Float.ofBits 0x3f91df46a2529d39
   | .to_degrees => fun x => x * Float.ofBits 0x404ca5dc1a63c1f8
